@@ -154,6 +154,26 @@ def _verdict(case, outcome):
   return False
 
 
+def _count_ok():
+  REC.paths += 1
+  REC.nontrivial.add("path-%d" % REC.paths)
+  return True
+
+
+def verdict_symbolic(args, ok, sig, detail=""):
+  """for harnesses whose arguments stay symbolic through the real code (no ladder): `ok` may be a symbolic
+  bool.  On the failing branch the arguments are realised (the solver's model) and recorded."""
+  if REC.twin:
+    from crosshair.core import deep_realize
+    case = deep_realize(list(args))
+    return concrete(_verdict, tuple(case), PASS())
+  if ok:
+    return concrete(_count_ok)
+  from crosshair.core import deep_realize
+  case = deep_realize(list(args))
+  return concrete(_verdict, tuple(case), FAIL(sig, detail))
+
+
 def load_known(prop_id):
   """signatures listed as known (unrepaired) findings for this property"""
   path = os.path.join(VERIF, "known_findings.json")
